@@ -11,6 +11,7 @@ EXPLANATION = ('Matrix assembly of _fractional_abundance_point proved by a loop 
                'row, right-hand side, bounds, division by n_e); path obligation in the *_point helpers: the CX coefficients passed on are '
                'non-None iff a donor is given; neutrality arithmetic (electron density left for the element, mean charge, densities) by loop '
                'invariants with ghost sums; lemma per Z = 1..18 (LRA): M x = 0, sum x = n_e with positive rates <=> pairwise balance, x in (0, n_e).')
+EXPLANATION += '  get_rates_*: an arbitrary iteration of the loading loop stores under charge i the rate of the GIVEN atomic data source.'
 F = "cherab/tools/plasmas/ionisation_balance.py"
 ASSUMPTIONS = ['scipy.optimize.lsq_linear returns a minimiser of |Ax - b| within the bounds (trusted); for the consistent full-rank balance '
                'system the minimiser is its unique solution (lemma), up to the solver tolerance',
